@@ -85,7 +85,7 @@ def impl_requests(progs, snapshot_logs=False):
     reqs, maps = [], []
     for p in progs:
         text, linemap = p.vcl(snapshot_logs=snapshot_logs)
-        reqs.append("%s %s %s" % (p.scope, ",".join(p.pool()), text.encode().hex()))
+        reqs.append("%s %s %s%s" % (p.scope, ",".join(p.pool()), text.encode().hex(), " logcheck" if snapshot_logs else ""))
         maps.append((text, linemap))
     return reqs, maps
 
@@ -213,6 +213,23 @@ def prog_line(prog, line):
     return prog._text.splitlines()[line - 1].strip() if getattr(prog, "_text", None) else "?"
 
 
+def parse_logrun(rep):
+    """reply of the `logcheck` mode -> dict(status, entries=[(kind, line, depth, raw)], logs)"""
+    if rep is None or not rep.startswith("ok "):
+        return None
+    out = {"entries": [], "logs": [], "status": None}
+    for x in U.parse_sexps(rep[3:]):
+        if x[0] == "l":
+            out["entries"].append(("l", int(x[1]), int(x[2]), x[3]))
+        elif x[0] == "s":
+            out["entries"].append(("s", int(x[1]), int(x[2]), None))
+        elif x[0] == "end":
+            out["status"] = x[1]
+        elif x[0] == "logs":
+            out["logs"] = [bytes.fromhex(q[1]) for q in x[1:]]
+    return out
+
+
 def check_logs(prog, it, linemap):
     """log-variant run: every snapshot `log X;` line must print the rendering of the raw value the
     accessor reported for X at that moment.  A log statement prints when its evaluation is over,
@@ -228,28 +245,25 @@ def check_logs(prog, it, linemap):
             return
         line = logs[k]
         k += 1
-        info = linemap.get(ent["line"])
-        if info is None or info[0] != "snaplog":
+        kind, ln, _, raw = ent
+        info = linemap.get(ln)
+        if kind != "l" or info is None or info[0] != "snaplog":
             return
-        n = info[1]
-        raw = ent["locals"].get(n) if n.startswith("var.") else dict(zip(prog.pool(), ent["pool"])).get(n)
-        if raw is None:
-            bad.append("log of %s printed %r but the accessor has no such name" % (n, line))
+        if raw == ["nil"]:
+            bad.append("line %d: log %s printed %r but the accessor has no such name" % (ln, info[1], line))
             return
         want = U.render(raw)
         if want is not None and want != line:
-            bad.append("line %d: log %s printed %r, accessor value %s renders to %r" % (ent["line"], n, line, U.show(raw), want))
+            bad.append("line %d: log %s printed %r, accessor value %s renders to %r" % (ln, info[1], line, U.show(raw), want))
 
     for ent in it["entries"]:
-        while pending and (ent["line"] is None or pending[-1]["depth"] >= ent["depth"]):
-            if ent["line"] is None and it["status"] == "err":
-                pending.pop()          # the run raised inside this statement: nothing was printed
-                continue
+        while pending and pending[-1][2] >= ent[2]:
             finish(pending.pop())
-        if ent["line"] is None:
-            break
-        if prog_line(prog, ent["line"]).startswith("log "):
+        if prog_line(prog, ent[1]).startswith("log "):
             pending.append(ent)
+    if it["status"] != "err":
+        while pending:
+            finish(pending.pop())
     return bad
 
 
@@ -289,8 +303,8 @@ def run(ctx):
         "PCRE is an oracle in the theorems; when running, two pattern shapes with a direct definition",
     ]
     # ------------------------------------------------------------------ programs
-    n_core = 12000 if thorough else 420
-    n_wild = 8000 if thorough else 260
+    n_core = 12000 if thorough else 380
+    n_wild = 8000 if thorough else 230
     progs = []
     g = G.StoreGen(rng)
     for _ in range(n_core):
@@ -361,12 +375,12 @@ def run(ctx):
             agree += 1
             nontrivial.add(p._text)
     # ------------------------------------------------------------------ the same store seen through `log`
-    sub = allp if thorough else allp[: len(allp) // 2]
+    sub = allp if thorough else allp[::2]
     lreqs, lmaps = impl_requests(sub, snapshot_logs=True)
     lreps = V.run_batch(impl, lreqs, hang_s=10)
     n_loglines = 0
     for p, rep, (text, linemap) in zip(sub, lreps, lmaps):
-        it = parse_impl(rep)
+        it = parse_logrun(rep)
         if it is None:
             ctx.violation("interpreter %s on a log-instrumented store program" % ((rep or "no reply")[:120]), {"vcl": text})
             continue
@@ -376,9 +390,6 @@ def run(ctx):
         n_loglines += len(it["logs"])
         for what in bad[:1]:
             ctx.violation("accessor snapshot and in-language log disagree: " + what, {"scope": p.scope, "vcl": text})
-        for what, line in oracle(p, it, {k: v for k, v in linemap.items()})[:1]:
-            ctx.violation("store frame violated by the interpreter (log-instrumented run): " + what,
-                          {"scope": p.scope, "vcl": text, "line": line})
         p._text = base
 
     if not proved and len(ctx.violations) == violations_before:
